@@ -96,6 +96,9 @@ Definition fields_of (D : decls) (t : ty) : option (list ty) :=
 
 Definition in_i8 (z : Z) : bool := (-128 <=? z) && (z <=? 127).
 
+Fixpoint exprs_len (es : exprs) : nat :=
+  match es with ENone => O | EMore _ _ r => S (exprs_len r) end.
+
 Section check.
   Variable C : cenv.
 
@@ -147,7 +150,7 @@ Section check.
       match check_expr G inv a with
       | Some (a', TBool, i1) =>
         match check_expr G i1 b with
-        | Some (b', TBool, i2) => Some (EAnd a' b', TBool, i2)
+        | Some (b', TBool, i2) => Some (EAnd a' b', TBool, i1 ++ i2)
         | _ => None
         end
       | _ => None
@@ -156,7 +159,7 @@ Section check.
       match check_expr G inv a with
       | Some (a', TBool, i1) =>
         match check_expr G i1 b with
-        | Some (b', TBool, i2) => Some (EOr a' b', TBool, i2)
+        | Some (b', TBool, i2) => Some (EOr a' b', TBool, i1 ++ i2)
         | _ => None
         end
       | _ => None
@@ -173,7 +176,7 @@ Section check.
         | Some (b', tb, i2) =>
           if kle (kind_of tb) KS then
             match checked_join t tb with
-            | Some j => Some (ECoalesce a' b' (TOpt t) tb j, j, i2)
+            | Some j => Some (ECoalesce a' b' (TOpt t) tb j, j, i1 ++ i2)
             | None => None
             end
           else None
@@ -240,13 +243,13 @@ Section check.
       | None => None
       end
     | EArr es te =>
-      match check_elems G inv es te with
+      match check_list G inv es (fun _ => te) O with
       | Some (es', i1) => Some (EArr es' te, TArr te, i1)
       | None => None
       end
     | EDict es tk tv =>
-      if hashable tk then
-        match check_pairs G inv es tk tv with
+      if hashable tk && Nat.even (exprs_len es) then
+        match check_list G inv es (fun i => if Nat.even i then tk else tv) O with
         | Some (es', i1) => Some (EDict es' tk tv, TDict tk tv, i1)
         | None => None
         end
@@ -273,79 +276,45 @@ Section check.
     | ECall f args =>
       match nth_error (ce_funs C) f with
       | Some (ps, rt) =>
-        match check_args G inv args ps with
-        | Some (args', i1) => Some (ECall f args', rt, i1)
-        | None => None
-        end
-      | None => None
-      end
-    | ECtor n args =>
-      match nth_error (ce_decls C) n with
-      | Some (r, fs) =>
-        match check_args G inv args fs with
-        | Some (args', i1) => Some (ECtor n args', comp_ty r n, i1)
-        | None => None
-        end
-      | None => None
-      end
-    | EPanic => Some (e, TNever, inv)
-    end
-  (* arguments against parameter types *)
-  with check_args (G : list ty) (inv : list nat) (es : exprs) (ps : list ty) {struct es}
-    : option (exprs * list nat) :=
-    match es, ps with
-    | ENone, [] => Some (ENone, inv)
-    | EMore e _ r, p :: ps' =>
-      match check_expr G inv e with
-      | Some (e', t, i1) =>
-        if subtype t p then
-          match check_args G i1 r ps' with
-          | Some (r', i2) => Some (EMore e' t r', i2)
+        if Nat.eqb (exprs_len args) (length ps) then
+          match check_list G inv args (fun i => nth i ps TVoid) O with
+          | Some (args', i1) => Some (ECall f args', rt, i1)
           | None => None
           end
         else None
       | None => None
       end
-    | _, _ => None
+    | ECtor n args =>
+      match nth_error (ce_decls C) n with
+      | Some (r, fs) =>
+        if Nat.eqb (exprs_len args) (length fs) then
+          match check_list G inv args (fun i => nth i fs TVoid) O with
+          | Some (args', i1) => Some (ECtor n args', comp_ty r n, i1)
+          | None => None
+          end
+        else None
+      | None => None
+      end
+    | EPanic => Some (e, TNever, inv)
     end
-  (* array literal elements against the element type *)
-  with check_elems (G : list ty) (inv : list nat) (es : exprs) (te : ty) {struct es}
+  (* a list of expressions, evaluated left to right; the i-th one is transferred to the type [tgt i]
+     (arguments against parameter types, array elements against the element type, dictionary
+     entries k1,v1,k2,v2,... against key and value type alternately) *)
+  with check_list (G : list ty) (inv : list nat) (es : exprs) (tgt : nat -> ty) (i : nat) {struct es}
     : option (exprs * list nat) :=
     match es with
     | ENone => Some (ENone, inv)
     | EMore e _ r =>
       match check_expr G inv e with
       | Some (e', t, i1) =>
-        if subtype t te then
-          match check_elems G i1 r te with
+        if subtype t (tgt i) then
+          match check_list G i1 r tgt (S i) with
           | Some (r', i2) => Some (EMore e' t r', i2)
           | None => None
           end
         else None
       | None => None
       end
-    end
-  (* dictionary literal entries k1,v1,k2,v2,... *)
-  with check_pairs (G : list ty) (inv : list nat) (es : exprs) (tk tv : ty) {struct es}
-    : option (exprs * list nat) :=
-    match es with
-    | ENone => Some (ENone, inv)
-    | EMore k _ (EMore v _ r) =>
-      match check_expr G inv k with
-      | Some (k', t1, i1) =>
-        match check_expr G i1 v with
-        | Some (v', t2, i2) =>
-          if subtype t1 tk && subtype t2 tv then
-            match check_pairs G i2 r tk tv with
-            | Some (r', i3) => Some (EMore k' t1 (EMore v' t2 r'), i3)
-            | None => None
-            end
-          else None
-        | None => None
-        end
-      | None => None
-      end
-    | _ => None
     end.
 
   (* ------------------------------------------------------------------ assignment targets *)
@@ -386,6 +355,12 @@ Section check.
       end
     end.
 
+  Fixpoint root_of (g : target) : nat :=
+    match g with
+    | TgVar x => x
+    | TgIndex g' _ | TgMember g' _ => root_of g'
+    end.
+
   (* ------------------------------------------------------------------ statements *)
 
   (* result: elaborated statement, variable types after it, invalidations after it,
@@ -408,6 +383,7 @@ Section check.
         match check_expr G i1 e with
         | Some (e', te, i2) =>
           if subtype te tg && kle (kind_of tg) KS
+             && negb (mem (root_of g) i1) && negb (mem (root_of g) i2)
           then Some (SAssign g' e' te tg, G, i2, false)
           else None
         | None => None
@@ -426,7 +402,8 @@ Section check.
       | Some (g', TArr t, i1) =>
         match check_expr G i1 e with
         | Some (e', te, i2) =>
-          if subtype te t then Some (SAppend g' e' te t, G, i2, false) else None
+          if subtype te t && negb (mem (root_of g) i1) && negb (mem (root_of g) i2)
+          then Some (SAppend g' e' te t, G, i2, false) else None
         | None => None
         end
       | _ => None
@@ -466,7 +443,7 @@ Section check.
         | Some (b', i1, _) =>
           (* the loop must not invalidate resources declared outside it *)
           if subset (scope (length G) i1) inv
-          then Some (SWhile c' b', G, i0, false) else None
+          then Some (SWhile c' b', G, inv ++ i0, false) else None
         | None => None
         end
       | _ => None
@@ -516,7 +493,7 @@ Section check.
       match check_stmt G inv inloop s with
       | Some (s', G1, i1, r1) =>
         match check_block G1 i1 inloop r with
-        | Some (r', i2, r2) => Some (BCons s' r', i2, r1 || r2)
+        | Some (r', i2, r2) => Some (BCons s' r', i1 ++ i2, r1 || r2)
         | None => None
         end
       | None => None
